@@ -430,6 +430,19 @@ func buildAlphabet() []op {
 	add("struct/second-value", false, sExpr{mem(st2, "D")})
 	add("struct/second-value", false, sLet{mem(st2, "A"), litInt(9)})
 	add("struct/second-value", false, sAddEq{mem(st2, "C"), litInt(6)})
+	// R. a typed slice that lives in a struct field or in an element of a
+	// [][]int64, read into another name or passed to a function: an append
+	// through that name (assignment at index len) works on a COPY of the slice
+	// header, the field / element keeps its own len
+	rows := v("rows")
+	add("alias/typed-slice", true, sLet{x, mem(st, "C")})
+	add("alias/typed-slice", false, sLet{x, idx(rows, litInt(0))})
+	add("generic/index-write", true, sLet{idx(x, eLen{x}), litInt(9)})
+	add("struct/field-elem", false, sLet{idx(mem(st, "C"), eLen{mem(st, "C")}), litInt(4)})
+	add("typed/rows", false, sExpr{idx(rows, litInt(0))})
+	add("typed/rows", false, sLet{idx(idx(rows, litInt(0)), eLen{idx(rows, litInt(0))}), litInt(9)})
+	add("typed/rows", false, sLet{idx(rows, litInt(1)), t})
+	add("typed/rows", false, sLet{idx(rows, litInt(0)), litInt(9)})
 	// O. script functions that mutate, append to or re-slice their parameter
 	z := v("z")
 	add("call", true, sCall{"z", []stmt{sLet{idx(z, litInt(0)), litInt(9)}}, a})
@@ -443,6 +456,9 @@ func buildAlphabet() []op {
 	add("call", false, sCall{"z", []stmt{sLet{idx(z, litInt(0)), litStr("y")}}, s})
 	add("call", false, sCall{"z", []stmt{sLet{idx(z, litInt(0)), litInt(9)}}, t})
 	add("call", false, sCall{"z", []stmt{sAddEq{z, litSl8}}, u})
+	add("call", false, sCall{"z", []stmt{sLet{idx(z, eLen{z}), litInt(8)}}, mem(st, "C")})
+	add("call", false, sCall{"z", []stmt{sLet{idx(z, eLen{z}), litInt(8)}}, idx(rows, litInt(0))})
+	add("call", false, sCall{"z", []stmt{sLet{idx(z, eLen{z}), litInt(8)}}, x})
 
 	seen := map[string]bool{}
 	for i, o := range ops {
@@ -471,6 +487,7 @@ var coreIDs = map[string]bool{
 	`t[0] = 9`: true, `st.A = 9`: true, `st.C = a`: true, `x = st.B`: true,
 	`func(z) { z[0] = 9 }(a)`: true, `func(z) { z += 9 }(b)`: true,
 	`u = t[0:2]`: true, `x = u + [8]`: true, `st.D["n"] = 5`: true,
+	`x = st.C`: true, `x[len(x)] = 9`: true,
 }
 
 // ---------- initial configurations ----------
@@ -483,15 +500,16 @@ type config struct {
 
 func baseModel() map[string]interface{} {
 	return map[string]interface{}{
-		"m":   map[interface{}]interface{}{"k": int64(1), int64(2): "v"},
-		"s":   "abc",
-		"x":   nil,
-		"t":   make([]int64, 3),
-		"ts":  []string{"p", "q"},
-		"tm":  map[string]int64{"k": 1},
-		"st":  &mst{C: []interface{}{}, D: map[string]int64{}},
-		"tf":  make([]float64, 1, 4),
-		"st2": &mst{C: []interface{}{}, D: map[string]int64{}},
+		"m":    map[interface{}]interface{}{"k": int64(1), int64(2): "v"},
+		"s":    "abc",
+		"x":    nil,
+		"t":    make([]int64, 3),
+		"ts":   []string{"p", "q"},
+		"tm":   map[string]int64{"k": 1},
+		"st":   &mst{C: []interface{}{}, D: map[string]int64{}},
+		"tf":   make([]float64, 1, 4),
+		"rows": make([][]int64, 2),
+		"st2":  &mst{C: []interface{}{}, D: map[string]int64{}},
 	}
 }
 
@@ -504,6 +522,7 @@ var baseSetup = []string{
 	`tm = map[string]int64{"k": 1}`,
 	`st = make(struct { A int64, B string, C []interface, D map[string]int64 })`,
 	`tf = make([]float64, 1, 4)`,
+	`rows = make([][]int64, 2)`,
 	`st2 = make(struct { A int64, B string, C []interface, D map[string]int64 })`,
 }
 
